@@ -348,6 +348,43 @@ pub fn run(ctx: &Ctx) -> i32 {
     }));
     let sp = special_destinations();
     acc = acc.merge(speclib::report::par_items(&sp, |t, acc| check(t, acc)));
+    // every kind of action the target supports (not only the menu's three), alone, guarded,
+    // negated, grouped and on either side of each operator: none may get a print added, and an
+    // expression without any gets exactly one
+    {
+        let nl = Fmt::Special(Special::Newline);
+        let actions = vec![
+            Action::Print,
+            Action::Print0,
+            Action::PrintFid,
+            Action::Quit,
+            Action::Printf(vec![Fmt::Field(Field::Name), nl.clone()]),
+            Action::Printf(vec![Fmt::Field(Field::Name)]),
+            Action::Printf(vec![Fmt::Lit("x".into())]),
+            Action::FPrint("f".into()),
+            Action::FPrint0("f".into()),
+            Action::FPrintf("f".into(), vec![Fmt::Field(Field::Name), nl]),
+        ];
+        let tests = [Expr::Test(Test::Name("x".into())), Expr::Test(Test::True), Expr::Test(Test::False)];
+        let mut trees = vec![];
+        for a in &actions {
+            let a = Expr::Action(a.clone());
+            trees.push(a.clone());
+            trees.push(Expr::not(a.clone()));
+            trees.push(Expr::prec(a.clone()));
+            for t in &tests {
+                for (x, y) in [(t.clone(), a.clone()), (a.clone(), t.clone())] {
+                    trees.push(Expr::and(x.clone(), y.clone()));
+                    trees.push(Expr::or(x.clone(), y.clone()));
+                    trees.push(Expr::list(x.clone(), y.clone()));
+                    trees.push(Expr::not(Expr::list(x.clone(), y.clone())));
+                    trees.push(Expr::and(x.clone(), Expr::not(y.clone())));
+                    trees.push(Expr::or(Expr::prec(x), Expr::prec(Expr::not(y))));
+                }
+            }
+        }
+        acc = acc.merge(speclib::report::par_items(&trees, |t, acc| check(t, acc)));
+    }
     acc = acc.merge(unsupported_actions());
     // very large trees (node counts around 4096 and 65536; chains 4097 and 5000 deep) of -true
     // tests with the only action last / first / absent
